@@ -308,3 +308,21 @@ func (c *Check) Finish() int {
 	}
 	return 0
 }
+
+// NewSubCheck creates a scratch check over the same program; its obligations can be adopted by the parent
+// under another rule (a property reusing a clause of another property).
+func NewSubCheck(parent *Check) *Check {
+	s := NewCheck(parent.ID, parent.Tier, parent.Seed)
+	s.P = parent.P
+	return s
+}
+
+// Obligations lists what the check decided so far.
+func (c *Check) Obligations() []*Obligation { return c.Obs }
+
+// Adopt copies an obligation of a sub-check under the given rule of this check.
+func (c *Check) Adopt(rule string, o *Obligation) *Obligation {
+	cp := *o
+	cp.Rule = rule
+	return c.add(&cp)
+}
